@@ -51,6 +51,7 @@ func (s *State) clone() *State {
 // ---------------------------------------------------------------- unit
 
 type Obligation struct {
+	Blk     int  // block of the top-level function in which the obligation arises (-2: after the body, sees everything)
 	Name    string
 	Kind    string
 	Goal    Term // complete goal, including the reachability guard
@@ -78,6 +79,10 @@ type modelProbe struct {
 }
 
 type Unit struct {
+	blkMarks []blkMark      // (item index, block of the top-level function) in emission order
+	curBlk   int            // block of the top-level function being executed (-1 before / outside)
+	topFn    *ssa.Function  // the function under verification (for the ancestor relation of its blocks)
+	anc      map[int]map[int]bool
 	toIntSeen []Term // fixed-width terms that have been converted to integers (for congruence facts)
 	intOf    [][2]Term // (integer value, fixed-width operand) of the conversions the program performs
 	frameOn      bool
@@ -186,7 +191,7 @@ func (u *Unit) oblige(fn, kind, detail string, guard, prop Term, src, tag string
 	if n > 0 || strings.HasPrefix(kind, "safe") || kind == "pre" {
 		name = fmt.Sprintf("%s.%d", base, n)
 	}
-	o := &Obligation{Name: name, Kind: kind, Goal: goal, NItems: len(u.items), Src: src, Tag: tag, Fn: fn}
+	o := &Obligation{Name: name, Kind: kind, Goal: goal, NItems: len(u.items), Src: src, Tag: tag, Fn: fn, Blk: u.curBlk}
 	if goal.S != "true" {
 		u.obls = append(u.obls, o)
 	} else {
@@ -571,4 +576,42 @@ func (u *Unit) mergeStates(conds []Term, sts []*State) *State {
 		out.heaps[k] = Term{n, nil}
 	}
 	return out
+}
+
+type blkMark struct{ at, blk int }
+
+// markBlock: from now on items belong to block b of the function under verification.
+func (u *Unit) markBlock(b int) {
+	u.curBlk = b
+	u.blkMarks = append(u.blkMarks, blkMark{len(u.items), b})
+}
+
+// ancestors gives, for block b of the top function, the blocks from which b can be reached along forward edges
+// (b included). An assertion made in any other block is irrelevant for an obligation that arises in b.
+func (u *Unit) ancestors(b int) map[int]bool {
+	if u.anc == nil {
+		u.anc = map[int]map[int]bool{}
+	}
+	if a, ok := u.anc[b]; ok {
+		return a
+	}
+	a := map[int]bool{}
+	if u.topFn != nil && b >= 0 && b < len(u.topFn.Blocks) {
+		var walk func(x *ssa.BasicBlock)
+		walk = func(x *ssa.BasicBlock) {
+			if a[x.Index] {
+				return
+			}
+			a[x.Index] = true
+			for _, p := range x.Preds {
+				if isBackEdge(p, x) {
+					continue
+				}
+				walk(p)
+			}
+		}
+		walk(u.topFn.Blocks[b])
+	}
+	u.anc[b] = a
+	return a
 }
